@@ -325,7 +325,20 @@ class Gen:
         members = [k for k in A["keys"] if k != "g1"]
         need = q(n)
         # d1: observed; quorum reached or not;  d2: never observed locally (parked);  d3: observed + VAA arrives from a peer
-        plan = r.choice(["pending", "done", "late", "parked", "mixed", "mixed"])
+        plan = r.choice(["pending", "done", "late", "parked", "mixed", "mixed", "mixed"])
+        if r.random() < 0.3:
+            # neighbouring stream entries: the same emitter and target, sequence numbers of which one is a decimal prefix of
+            # the other (1 / 12, 7 / 70, 3 / 300): "a VAA for this message is stored" must be an exact match
+            s1 = r.choice([1, 2, 7, 9, 10, 42])
+            s3 = int(str(s1) + r.choice(["0", "2", "00", "9", "17"]))
+            if r.random() < 0.3:
+                s1, s3 = s3, s1
+            bodies["d1"].update({"seq": s1})
+            bodies["d3"].update({"chain": 2, "eid": "i1", "seq": s3})
+            plan = r.choice(["mixed", "mixed", "pending"])
+        rotate_at = -1
+        if r.random() < 0.3:
+            rotate_at = r.randrange(0, 6)   # a guardian-set update while messages are pending (retries must go on)
         if plan in ("pending", "mixed", "late"):
             if members and r.random() < 0.4:
                 steps.append(self.obs("d1", r.choice(members)))  # a peer's observation arrives first
@@ -346,6 +359,16 @@ class Gen:
         # ticks; in some histories the store stops answering at some point
         down_at = r.randrange(0, 10) if r.random() < 0.2 else -1
         for i in range(r.randrange(3, 14)):
+            if i == rotate_at:
+                keys = list(A["keys"])
+                op = r.choice(["same", "rot", "add", "drop"])
+                if op == "rot" and len(keys) > 1:
+                    keys = keys[1:] + keys[:1]
+                elif op == "add" and len(keys) < 19:
+                    keys.append("h1")
+                elif op == "drop" and len(keys) > 1:
+                    keys.remove(r.choice([k for k in keys if k != "g1"]))
+                steps.append({"ev": "SetUpdate", "a": {"set": {"idx": A["idx"] + 1, "keys": keys}}})
             if i == down_at:
                 steps.append({"ev": "StoreDown", "a": {"x": 0}})
                 down_at = -2
